@@ -41,7 +41,9 @@ let rec parse_ty (toks : string list) : ty * string list =
        (TStruct (repr, fs), rest)
      | 'U' ->
        let (n, rest) = (match rest with c :: r -> (int_of_string c, r) | [] -> failwith "schema") in
-       let repr = (match t.[1] with 'k' -> UKeyed | 'd' -> UKinded | _ -> UStringprefix) in
+       let (repr, rest) = (match t.[1] with
+           | 'k' -> (UKeyed, rest) | 'd' -> (UKinded, rest)
+           | _ -> (match rest with dl :: r -> (UStringprefix (unx dl), r) | [] -> failwith "schema")) in
        let rec members i acc rest =
          if i = 0 then (List.rev acc, rest) else
            (match rest with
@@ -420,7 +422,13 @@ let process (q0 : quirks) (c : case) : unit =
   | "both" ->
     let fb q = build_obs Bind q lv t d in
     let fg q = build_obs Gen q lv t d in
-    if not (wf t && gen_supported t) then out (fb q0 ^ "#" ^ fg q0) "skip" else
+    (* a type-level tree can denote a struct value that has no tuple / stringjoin representation (an
+       absent field before a present one; a delimiter inside a field): its representation view is
+       unspecified and the engines show different things — out of scope for the comparison *)
+    let unrepresentable =
+      (match (match lv with LType -> conforms_t t d | LRepr -> conforms_r t d) with
+       | Some v -> not (has_type t v) | None -> false) in
+    if not (wf t && gen_supported t) || unrepresentable then out (fb q0 ^ "#" ^ fg q0) "skip" else
       (match split_obs obs with
        | None -> out (fb q0 ^ "#" ^ fg q0)
                    ("fail:" ^ (if obs = "nobuild" then "gen_does_not_compile" else "harness_schema"))
